@@ -358,6 +358,61 @@ def make_case(rng, root, opts):
     return g, main
 
 
+class Fixed:
+    """a hand-built case with the same interface as Gen"""
+
+    def __init__(self, tree, planted):
+        self.t = tree
+        self.planted = planted
+        self.stats = {}
+
+
+def small_scope(base, tag):
+    """EXHAUSTIVE small scope: main.ds (2 lines) with one directive at every position, listing every one of five
+    argument lists over lib/a.ds (2 lines) and lib/b.ds (1 line + a directive including a.ds, before or after its
+    line), relative and absolute spellings, files ending with and without a newline, and every single planted
+    problem: a missing file at every position of main's directive, lib/a.ds absent, a malformed line at every
+    line position of every file."""
+    out = []
+    n = 0
+    arglists = [["a"], ["a", "b"], ["a", "a"], ["b", "a"], ["b"]]
+    plants = [None, ("absent-a",)] + [("missing", i) for i in range(3)] + \
+             [("bad", f, i) for f, m in (("main.ds", 4), ("lib/a.ds", 3), ("lib/b.ds", 3)) for i in range(m)]
+    for pos in range(3):
+        for al in arglists:
+            for style in ("rel", "abs"):
+                for bpos in (0, 1):
+                    for plant in plants:
+                        for end in ("\n", ""):
+                            if plant and plant[0] == "missing" and plant[1] > len(al):
+                                continue
+                            n += 1
+                            root = "%s/%s_x%d" % (base, tag, n)
+                            t = Tree(root)
+                            t.add_dir("lib")
+                            sp = (lambda f: root + "/lib/" + f + ".ds") if style == "abs" else (lambda f: "lib/" + f + ".ds")
+                            margs = [sp(f) for f in al]
+                            if plant and plant[0] == "missing":
+                                margs.insert(plant[1], "lib/zz.ds" if style == "rel" else root + "/lib/zz.ds")
+                            files = {
+                                "main.ds": ["emit m1", "boom 1"],
+                                "lib/a.ds": ["va = set A", "boom 7"],
+                                "lib/b.ds": ["emit b1 ${va}"],
+                            }
+                            files["main.ds"].insert(pos, "!include_files " + " ".join(margs))
+                            bargs = [root + "/lib/a.ds" if style == "abs" else "a.ds"]
+                            files["lib/b.ds"].insert(bpos, "!include_files " + bargs[0])
+                            if plant and plant[0] == "bad":
+                                files[plant[1]].insert(plant[2], 'x = set "unterminated')
+                            if plant and plant[0] == "absent-a":
+                                del files["lib/a.ds"]
+                            for f, ls in files.items():
+                                t.files[f] = "\n".join(ls) + end
+                            t.args = {"main.ds": margs, "lib/b.ds": bargs}
+                            out.append((Fixed(t, [plant] if plant else []), "main.ds" if style == "rel" else root + "/main.ds"))
+    return out
+
+
 def case_line(kind, tree, main, extra):
     vfs, res = tree.tables(main)
     f_vfs = " ".join("%s:%s" % (enc_str(p), enc_str(c)) for p, c in sorted(vfs.items())) or "-"
@@ -389,7 +444,8 @@ def run(ck):
     tag = "s%d_%d" % (ck.seed, os.getpid())
 
     n_cases = 6000 if thorough else 1500
-    cases = []
+    cases = small_scope(base, tag)
+    n_small = len(cases)
     dropped_cyclic = 0
     for k in range(n_cases):
         r = rng.random()
@@ -414,12 +470,17 @@ def run(ck):
         m_f = ck.model(f_lines)
         i_f = ck.impl(f_lines, timeout=900)
         r_idx, r_lines = [], []
-        dist = {"ok": 0, "err": {}, "instructions": 0, "max_depth_files": 0, "inlined": 0}
+        dist = {"ok": 0, "err": {}, "instructions": 0, "inlined": 0, "files_per_case": {}, "include_depth": {}}
         nontriv = set()
         agg = {}
         for k, ((g, main), m, i) in enumerate(zip(cases, m_f, i_f)):
             for s, v in g.stats.items():
                 agg[s] = agg.get(s, 0) + v
+            nf = str(len(g.t.files))
+            dist["files_per_case"][nf] = dist["files_per_case"].get(nf, 0) + 1
+            if isinstance(g, Gen):
+                h = str(max(g.height.values()) if g.height else 0)
+                dist["include_depth"][h] = dist["include_depth"].get(h, 0) + 1
             mf = m.split("\t")
             bad = None
             if len(mf) != 3:
@@ -521,9 +582,10 @@ def run(ck):
                     "twice, completed files re-used, directives first/middle/last, several per file, CRLF and missing final "
                     "newline, planted missing files / directories-as-files / malformed lines, missing main); non-trivial = distinct "
                     "parse result that either is an error or has instructions from >= 2 sources",
-            "exhaustive": False,
+            "exhaustive": True,
+            "exhaustive_part": {"small_scope_cases": n_small, "what": small_scope.__doc__},
             "samples": [{"main": cases[j][1].replace(cases[j][0].t.root, "<root>"),
-                         "files": {p: c for p, c in list(cases[j][0].t.files.items())[:4]}} for j in (0, 1)],
+                         "files": {p: c for p, c in list(cases[j][0].t.files.items())[:4]}} for j in (0, n_small, n_small + 1)],
             "distribution": dist,
             "dropped_cyclic_by_assertion": dropped_cyclic,
         }
